@@ -84,3 +84,11 @@
 (declare-fun feeGranter (Iface) Bytes)
 (declare-fun addrStr (Int Bytes) Bytes)
 (declare-fun addrStrOK (Int Bytes) Bool)
+
+; ---- validators (assumed pure functions) ------------------------------------------------------------------
+(declare-fun pkAddress (Iface) Bytes)      ; consensus address of a public key
+(declare-fun pkType (Iface) Bytes)
+(declare-fun valStr (Bytes) Bytes)         ; sdk.ValAddress.String
+(declare-fun jsonIfaceOK (Bytes) Bool)     ; codec.UnmarshalInterfaceJSON succeeds on these bytes
+(declare-fun jsonIface (Bytes) Iface)
+(declare-fun anyOK (Iface) Bool)           ; codectypes.NewAnyWithValue succeeds
